@@ -1,3 +1,4 @@
+import LimeModel.Generated
 import LimeModel.Basic
 /-!
 # M5: blocking operations and their context (tcp_transport.go `ctxConn.Read` / `ctxConn.Write`,
@@ -71,6 +72,8 @@ def helperOp (interrupts : Bool) (c : Ctx) (readyAt : Option Nat) (now : Nat) : 
       | none => none                          -- never
   | none => none
 
-def wsInterrupts : Bool := true
+/-- read from the source on this run: the WebSocket `Send` forces the deadline onto the underlying
+connection when its context ends -/
+def wsInterrupts : Bool := Generated.wsForcesUnderlyingDeadline
 
 end LimeModel.Timed
